@@ -672,7 +672,7 @@ import fresh as F  # noqa: E402
 
 
 def fresh_set(ctx):
-    n = 4 if ctx.tier == "quick" else 40
+    n = 10 if ctx.tier == "quick" else 40
     sch = F.standard_set(ctx.seed, n)
     return sch
 
